@@ -7,6 +7,7 @@ cp /repo/Cargo.lock harness/Cargo.lock
 cp /repo/Cargo.lock macroharness/Cargo.lock
 python3 tools/translate_tuples.py
 python3 tools/translate_locks.py
+python3 tools/translate_mirrors.py
 (cd lean && lake build Unimock driver)
 (cd harness && cargo build --offline 2>&1 | tail -3)
 (cd macroharness && cargo build --offline 2>&1 | tail -3)
